@@ -254,16 +254,17 @@ Dom_Block(block) ==
      /\ Len(LinesWith(block, S_id)) = 1 /\ IsIntText(DropN(LinesWith(block, S_id)[1], 2))
      /\ Len(LinesWith(block, S_name)) <= 1
      /\ \A k \in DOMAIN DataLabels : Len(LinesWith(block, DataLabels[k])) = 1
-     /\ LET aa == DataOf(block, S_AA)  init == DataOf(block, S_Init)
-            b == [k \in 1..3 |-> DataOf(block, S_Base(k))] IN
-        /\ Len(aa) = 64 /\ Len(init) = 64 /\ \A k \in 1..3 : Len(b[k]) = 64 /\ IsNucWord(b[k])
-        /\ \A i \in 1..64 : IsProtSym(aa[i]) /\ init[i] \in {"-", "i"}
-        /\ \E i \in 1..64 : init[i] = "i"
-        /\ Cardinality({WordNum(<<b[1][i], b[2][i], b[3][i]>>) : i \in 1..64}) = 64
+     /\ Bind(TLCEval([k \in 1..5 |-> DataOf(block, DataLabels[k])]), LAMBDA d :       \* AA, Init, Base1..3
+          /\ \A k \in 1..5 : Len(d[k]) = 64
+          /\ \A k \in 3..5 : IsNucWord(d[k])
+          /\ \A i \in 1..64 : IsProtSym(d[1][i]) /\ d[2][i] \in {"-", "i"}
+          /\ \E i \in 1..64 : d[2][i] = "i"
+          /\ Cardinality({WordNum(<<d[3][i], d[4][i], d[5][i]>>) : i \in 1..64}) = 64)
 Dom_TableText(text) ==
-  LET blocks == {BlockLines(text, sp) : sp \in BlockSpans(text)} IN
-  /\ \A bl \in blocks : Dom_Block(bl)
-  /\ \A x, y \in blocks : x # y => (BlockIds(x) \cap BlockIds(y) = {} /\ BlockNames(x) \cap BlockNames(y) = {})
+  Bind(TLCEval({BlockLines(text, sp) : sp \in BlockSpans(text)}), LAMBDA blocks :
+    /\ \A bl \in blocks : Dom_Block(bl)
+    /\ Bind(TLCEval([bl \in blocks |-> <<BlockIds(bl), BlockNames(bl)>>]), LAMBDA keys :
+         \A x, y \in blocks : x # y => (keys[x][1] \cap keys[y][1] = {} /\ keys[x][2] \cap keys[y][2] = {})))
 
 (* ------------------------------------------------------------------ nucleotide sequences *)
 \* NucleotideSequence(chars, ambiguous): letters in either case; "auto" tries the four letters first
